@@ -212,7 +212,10 @@ def main(argv=None):
     ap.add_argument("--keep", action="store_true")
     a = ap.parse_args(argv)
     os.environ.setdefault("TSKIT_VERIF", "1")
-    seed = int(os.environ.get("VERIF_SEED", "1"))
+    try:
+        seed = int(os.environ.get("VERIF_SEED", "1") or "1")
+    except ValueError:
+        seed = derive(0, os.environ["VERIF_SEED"]) % (2**31)
 
     if a.setup:
         return setup()
@@ -445,4 +448,14 @@ def setup():
 
 
 if __name__ == "__main__":
-    sys.exit(main())
+    try:
+        rc = main()
+    except SystemExit:
+        raise
+    except BaseException:  # a failure of the harness itself is never a violation (exit 1)
+        import traceback
+
+        traceback.print_exc()
+        print("HARNESS-ERROR runner failed")
+        rc = 2
+    sys.exit(rc)
